@@ -249,3 +249,55 @@ def interpolate(T, p, xs, u, periodic_nb=None):
         full[periodic_nb:] = c[:n - periodic_nb]
         return full, np.linalg.cond(M)
     return c, np.linalg.cond(M)
+
+
+def basis_all_der(T, p, x):
+    """first derivatives of all basis functions B_{j,p} at x (difference formula of degree-lowered splines)"""
+    T = [float(t) for t in T]
+    n = len(T) - p - 1
+    if p == 0:
+        return [0.0] * n
+    low = basis_all(T, p - 1, x)        # n+1 functions of degree p-1 on the same knots
+    out = []
+    for j in range(n):
+        v = 0.0
+        d1 = T[j + p] - T[j]
+        if d1 > 0:
+            v += p * low[j] / d1
+        d2 = T[j + p + 1] - T[j + 1]
+        if d2 > 0:
+            v -= p * low[j + 1] / d2
+        out.append(v)
+    return out
+
+
+def clamped_knots(breaks, p):
+    breaks = [float(b) for b in breaks]
+    return np.array([breaks[0]] * p + breaks + [breaks[-1]] * p)
+
+
+def galerkin_radial(breaks, p, nquad, A, Bf, Cf, Df, Ef, m2, l_neumann, u_neumann):
+    """Dense Galerkin operator of  A phi'' + B phi' + C phi - m^2 D phi = E rho  in cylindrical measure
+    on the clamped spline space (breaks, p), Gauss-Legendre with nquad points per cell:
+        K[i,j] = int [ -A (phi_j' phi_i' r + phi_j' phi_i) + B phi_j' phi_i r + C phi_j phi_i r - m2 D phi_j phi_i r ]
+        Mass[i,j] = int E phi_j phi_i r
+    Returns (K_restricted, Mass_restricted_rows, index array of kept unknowns, T)."""
+    T = clamped_knots(breaks, p)
+    n = len(T) - p - 1
+    x, w = gauss_legendre(breaks, nquad)
+    V = np.array([basis_all(T, p, xi) for xi in x])          # (nq, n)
+    D1 = np.array([basis_all_der(T, p, xi) for xi in x])
+    a = np.array([A(xi) for xi in x], dtype=float)
+    b = np.array([Bf(xi) for xi in x], dtype=float)
+    c = np.array([Cf(xi) for xi in x], dtype=float)
+    d = np.array([Df(xi) for xi in x], dtype=float)
+    e = np.array([Ef(xi) for xi in x], dtype=float)
+    K = np.zeros((n, n))
+    K += np.einsum("q,qj,qi->ij", w * (-a) * x, D1, D1)
+    K += np.einsum("q,qj,qi->ij", w * (-a), D1, V)
+    K += np.einsum("q,qj,qi->ij", w * b * x, D1, V)
+    K += np.einsum("q,qj,qi->ij", w * c * x, V, V)
+    K -= m2 * np.einsum("q,qj,qi->ij", w * d * x, V, V)
+    Mass = np.einsum("q,qj,qi->ij", w * e * x, V, V)
+    keep = np.arange(0 if l_neumann else 1, n - (0 if u_neumann else 1))
+    return K[np.ix_(keep, keep)], Mass[keep, :], keep, T
